@@ -19,7 +19,8 @@ EXPLANATION = (
     "same conditions (window full, distance >= segment size, candidate membership, right-most candidate at the "
     "end); (P5) all results are sets, so contig order cannot show in them.  The value-level laws (subset of "
     "singletons, spacing >= segment size) are not decided.  (P9) the end of the reference sample is found by the "
-    "PanSN prefix of each record's own header (C19-G8/G9 shared).")
+    "PanSN prefix of each record's own header (C19-G8/G9 shared); (P10) the three variants are interpreted on small "
+    "references: same sets from all three, unchanged by later samples, equal to a from-scratch count, order- and strand-independent.")
 UNDECIDED = "that splitters are singletons and that interior segments have at least segment-size bases (value-level laws)"
 
 SP = "ragc_core::splitters::"
